@@ -202,7 +202,7 @@ func signHS256(secret string) string {
 func RunReloadBinaryCase(seed int64, bin, workDir string) *HistResult {
 	r := rand.New(rand.NewSource(seed))
 	res := &HistResult{Seed: seed, Situations: map[string]map[string]struct{}{}, Evaluations: map[string]int{}}
-	reloadProps := []string{"C16", "C17", "C01", "C07"}
+	reloadProps := []string{"C16", "C17", "C01", "C07", "C02"}
 	find := func(sig, format string, args ...any) {
 		res.Findings = append(res.Findings, Finding{Props: reloadProps, Sig: sig, Detail: fmt.Sprintf(format, args...), Step: -1})
 	}
